@@ -78,6 +78,12 @@ PerKey == \A k \in Keys :
 
 Invariants == WindowBound /\ Refusal /\ HintExact /\ PerKey
 
+(* RateProof.tla proves the window bound for any period, burst and arrival pattern (TLAPS); *)
+(* every key of this model, taken alone, behaves as RateProof's limiter does               *)
+RP(k) == INSTANCE RateProof WITH Tau <- (B - 1) * T, tat <- tat[k], counting <- FALSE,
+                                 wstart <- 0, acc <- 0, first <- TRUE
+RefinesRateProof == RP(1)!Spec /\ RP(2)!Spec
+
 Emit == (Depth > 0 /\ now = 0 /\ Len(hist) = Depth) => PrintT(<<"REPLAY", ToJson(hist)>>)
 AtZero == Depth = 0 \/ (now = 0 /\ Len(hist) <= Depth)
 =============================================================================
